@@ -39,7 +39,7 @@ def shard_setup(obs) -> None:
 
 
 def gen_cases(tier: str, seed: int):
-    n = {"quick": 640, "thorough": 8000}[tier]
+    n = {"quick": 640, "thorough": 40000}[tier]
     for i in range(n):
         yield {"kind": ["da", "var", "cov", "init"][i % 4], "seed": [seed, i]}
 
